@@ -147,6 +147,15 @@ def layouts(name, text, rng, thorough):
         if het:
             out.append((f"{name} hetero block before second chain", join([a, ["TER   "], het, b, ["TER   "], rest])))
             out.append((f"{name} hetero block first", join([het, a, ["TER   "], b, rest])))
+        if a_oxt:
+            # OXT written before O (not the last record of its residue) and no TER: the rest of the terminal residue must not start a chain,
+            # the next chain must
+            i_oxt = max(i for i, l in enumerate(a) if l[12:16].strip() in ("OXT", "O''"))
+            i_o = max(i for i, l in enumerate(a) if l[12:16] == " O  ")
+            if i_o < i_oxt:
+                a3 = list(a)
+                a3.insert(i_o, a3.pop(i_oxt))
+                out.append((f"{name} OXT before O in the last residue of chain A, no TER", join([a3, b, rest, het])))
         if not a_oxt:
             # give chain A a terminal oxygen (rename its last O) and drop the TER: chain B still starts a chain
             last_o = max(i for i, l in enumerate(a) if l[12:16] == " O  ")
@@ -348,6 +357,10 @@ def run(chk: common.Check):
     # option settings
     cases.append(("1HPX -c A", structures.read("1HPX.pdb"), ["-c", "A"]))
     cases.append(("3SGB -c I", structures.read("3SGB.pdb"), ["-c", "I"]))
+    blank = "\n".join((l[:21] + " " + l[22:]) if (structures.is_atom(l) and l[21] == "A") else l for l in structures.read("1HPX.pdb").splitlines()) + "\n"
+    cases.append(("1HPX chain A blank, no selection", blank, []))
+    cases.append(("1HPX chain A blank, -c ' '", blank, ["-c", " "]))
+    cases.append(("1HPX chain A blank, -c B", blank, ["-c", "B"]))
     cases.append(("3SGB-subset two models", structures.as_models([structures.read("3SGB-subset.pdb")] * 2), []))
     mols = []
     pcases = []
